@@ -116,6 +116,7 @@ func c04WholeOnce(t *testing.T, s *sim.Scn, k int, o *sim.Outcome) (fired bool) 
 			return
 		}
 		agg.up = false
+		agg.closeHost()
 		restoreDir(agg.sn.Root, files)
 		committed := agg.sn.Height()
 		fail := func(oracle, obs, exp string) {
@@ -149,6 +150,7 @@ func c04WholeOnce(t *testing.T, s *sim.Scn, k int, o *sim.Outcome) (fired bool) 
 				break
 			}
 			agg.up = false
+			agg.closeHost()
 			agg.sn.Fence.Kill()
 			lastErr = agg.err
 			gaveUp++
